@@ -400,10 +400,15 @@ def run(ctx):
     r5 = ctx.rule("R5", "unique names; map creates one target per item with index-bearing names", min_instances=6)
     rule_unique_and_map(ctx, r5)
     # the workflow API evaluated on a symbolic workflow: overrides shape complaints about Workflow.target / target_from_template / _add_target
-    from .evalhelpers import cached_witness, report_witness, workflow_api_witness
+    from .evalhelpers import cached_witness, report_witness, workflow_api_witness, workflow_map_witness
     ww = cached_witness(ctx, "workflow-api", workflow_api_witness)
     report_witness(r1, "src/gwf/workflow.py::Workflow::witnesses", "src/gwf/workflow.py:1", ww,
                    "direct and template targets get the workflow's directory (or the template's own), are registered under their name, duplicates are rejected")
+    wm = cached_witness(ctx, "workflow-map", workflow_map_witness)
+    report_witness(r5, "src/gwf/workflow.py::Workflow.map::witnesses", "src/gwf/workflow.py:1", wm,
+                   "one target per item (scalar / sequence / mapping items), names <template or given name>_<index> or from the naming function")
+    if not wm[1]:
+        ctx.reconcile([r5], lambda c: "workflow.py::Workflow.map" in c, (wm[0], [], wm[2]), "src/gwf/workflow.py::Workflow.map", "src/gwf/workflow.py:1")
     if not ww[1]:
         ctx.reconcile([r1, r5], lambda c: ("workflow.py::Workflow.target" in c or "workflow.py::Workflow._add_target" in c or "workflow.py::Workflow.targets" in c) and "fallback" not in c,
                       (ww[0], [], ww[2]), "src/gwf/workflow.py::Workflow", "src/gwf/workflow.py:1")
